@@ -240,6 +240,11 @@ func (e *StringExpr) Check(ctx *CheckCtx) error {
 }
 
 func (e *NotExpr) Check(ctx *CheckCtx) error {
+	if nexp, ok := e.Right.(*NameExpr); ok {
+		if fexpr, have := ctx.GetNamedExpr(nexp.Data); have {
+			e.Right = &FieldReferenceExpr{Name: nexp, FieldExpr: fexpr}
+		}
+	}
 	if err := e.Right.Check(ctx); err != nil {
 		return err
 	}
